@@ -120,13 +120,13 @@ def guess_level_case(spec, opts, rules_dir):
     mn, mx = opts['min_length'], opts['max_length']
     inb = lambda L: L >= mn and (not mx or L <= mx)
     def cat(st):
-        if 'X' in st:
-            return 'X'
-        # a letter whose upper-casing is longer than one character makes a guess longer than its label says
-        for tok in re.findall('A[0-9]+', st):
-            if any(len(ch.upper()) > 1 for val, _ in spec['terminals'].get(tok, []) for ch in val):
-                return 'case-expansion'
-        return 'other'
+        # a letter whose upper-casing is longer than one character makes a guess longer than the stored value: if the lengths
+        # of the stored values (X: the real context strings) are all within the bounds, that is the only cause left
+        stored = label_lengths(st, {len(v) for v, _ in spec['terminals'].get('X1', [])} or {1})
+        expanding = any(len(ch.upper()) > 1 for tok in re.findall('A[0-9]+', st) for val, _ in spec['terminals'].get(tok, []) for ch in val)
+        if expanding and stored is not None and all(inb(L) for L in stored):
+            return 'case-expansion'
+        return 'X' if 'X' in st else 'other'
     for st, lens in before.items():
         ok = all(inb(L) for L in lens)
         if st in after and not ok:
